@@ -164,11 +164,117 @@ def check_c17(tier):
                                           "code bytes are observed at every OS call of the crate and at API entry/return; a write and its flush between two consecutive OS calls are ordered by the content recorded at flush time"])
 
 
+# ---------------------------------------------------------------------------------------------
+# E3, call-count family (C06 sequential, C07, C05 part)
+
+def times_runs(tier, ns, depth_q, depth_t, threads=False):
+    depth = depth_q if tier == "quick" else depth_t
+    return [(["times", "--n", str(n), "--depth", str(depth)] + (["--threads"] if threads else [])) for n in ns]
+
+
+def run_times(prop, runs, conform=True):
+    """Run the given `e3 times` argument lists; returns (merged list, validated, mismatches)."""
+    os.makedirs(os.path.join(WORK, "dig"), exist_ok=True)
+    merged = []
+    validated = 0
+    mismatches = []
+    for r, args in enumerate(runs):
+        dm = [os.path.join(WORK, "dig", f"{prop}-t{r}-m-{i}.txt") for i in range(NCPU)]
+        cmds = [[bin_path("e3")] + args + ["--shard", f"{i}/{NCPU}", "--digests", dm[i]] for i in range(NCPU)]
+        res = run_parallel(cmds, timeout=2400)
+        outs = []
+        for i, (rc, out, err) in enumerate(res):
+            if rc != 0:
+                raise MachineryError(f"engine e3 {args} shard {i} exited {rc}: {err[-1500:]}")
+            outs.append(json.loads(out.strip().splitlines()[-1]))
+        m = _merge_hist(outs)
+        m["args"] = args
+        merged.append(m)
+        if conform:
+            dr = [os.path.join(WORK, "dig", f"{prop}-t{r}-r-{i}.txt") for i in range(NCPU)]
+            cmds = [[bin_path("e3real")] + args + ["--shard", f"{i}/{NCPU}", "--digests", dr[i]] for i in range(NCPU)]
+            for i, (rc, out, err) in enumerate(run_parallel(cmds, timeout=2400)):
+                if rc != 0:
+                    raise MachineryError(f"conformance run e3real {args} shard {i} exited {rc}: {err[-1000:]}")
+            for i in range(NCPU):
+                a = open(dm[i]).read().splitlines()
+                b = open(dr[i]).read().splitlines()
+                if len(a) != len(b):
+                    raise MachineryError("conformance: different history sets")
+                for x, y in zip(a, b):
+                    if x.endswith(" 1") or y.endswith(" 1"):
+                        continue
+                    if x == y:
+                        validated += 1
+                    else:
+                        mismatches.append((x, y))
+    return merged, validated, mismatches
+
+
+def times_family(prop, tier, runs, assumptions_extra, take_props=None):
+    t0 = time.time()
+    mi = mount()
+    build(["e3m", "e3r"])
+    merged, validated, mismatches = run_times(prop, runs)
+    take_props = take_props or (prop,)
+    viols = []
+    for m in merged:
+        mine = []
+        for v in sorted(m["violations"], key=lambda v: (len(v["history"]), v["step"])):
+            if v["prop"] == "MACHINERY":
+                raise MachineryError(f"{v['key']}: {v['what']}")
+            if v["prop"] in take_props:
+                mine.append({"key": v["key"], "what": v["what"], "engine": "e3", "args": m["args"][:3],
+                             "case": {"history": v["history"], "n": v.get("n"), "step": v["step"]}})
+        for (p, k), n in m["counts"].items():
+            have = [v for v in mine if v["key"] == k]
+            if have and n > len(have):
+                mine += [dict(have[0]) for _ in range(min(n, 1000) - len(have))]
+        viols += mine
+    cov = {
+        "states": sum(m["prefixes"] for m in merged),
+        "transitions": sum(m["steps"] for m in merged),
+        "traces_validated_against_impl": validated,
+        "samples": [s for m in merged for s in m["samples"][:2]],
+        "histories": sum(m["histories"] for m in merged),
+        "distinct_outcomes": max(m["distinct_outcomes"] for m in merged),
+        "bound": [{"args": m["args"], "depth": m["depth"], "alphabet": m["alphabet"], "histories": m["histories"]} for m in merged],
+        "exhaustive": True,
+        "histories_ended_by_process_death": sum(m["crashed"] for m in merged),
+        "conformance_mismatches": len(mismatches),
+        "explanation": "states = distinct operation prefixes (each executed from a pristine process image, because the per-site call counters are statics of the image); transitions = operations judged; every sequence of exactly `depth` enabled operations over the alphabet B(egin) M/X (matching/non-matching call caught inside the scope) Mu/Xu (same, panic propagates out of the scope) E(nd scope) P(anic) O(utside call) was run for each listed N, all lifetimes of a history evaluating the same fake!(…, times: N) source line",
+    }
+    if cov["distinct_outcomes"] < 2:
+        raise MachineryError("vacuous exploration: fewer than two distinct observation logs")
+    if mismatches and not viols:
+        raise MachineryError(f"conformance: {len(mismatches)} histories observed differently on the mounted and the unmodified crate, e.g. {mismatches[0]}")
+    return finish(prop, tier, t0, cov, viols, COMMON_ASSUMPTIONS + assumptions_extra, mi)
+
+
+def check_c07(tier):
+    runs = times_runs(tier, [0, 1, 2], 8, 10) + times_runs(tier, [1], 6, 8, threads=True)
+    return times_family("C07", tier, runs,
+                        ["a mismatch with the reference model is attributed to C07 when it occurs in a lifetime that follows earlier use of the same fake! source line, to C06 when it occurs in the first lifetime of a fresh process"])
+
+
+def check_c06(tier):
+    runs = times_runs(tier, [0, 1, 2, 3], 7, 9)
+    return times_family("C06", tier, runs, ["sequential part only in this function; the concurrent part is explored by E2"])
+
+
+def check_c05(tier):
+    runs = times_runs(tier, [0, 1, 2], 7, 9)
+    return times_family("C05", tier, runs, [])
+
+
 CHECKS = {
     "C02": check_c02,
     "C03": check_c03,
     "C12": check_c12h,
     "C17": check_c17,
+    "C07": check_c07,
+    "C06": check_c06,
+    "C05": check_c05,
 }
 
 
@@ -184,6 +290,8 @@ def replay(pid, path):
     if eng == "e3":
         build(["e3m", "e3r"])
         fam_args = case["args"]
+        if fam_args and fam_args[0] == "times":
+            fam_args = ["times", "--n", str(case["case"].get("n", 1))]
         rc = 0
         for b in ("e3", "e3real"):
             r = subprocess.run([bin_path(b)] + fam_args + ["--replay", path], capture_output=True, text=True, cwd=WORK, env=env_offline())
